@@ -8,6 +8,7 @@ import (
 	"go/constant"
 	"go/token"
 	"go/types"
+	"os"
 	"sort"
 	"strings"
 
@@ -5404,6 +5405,7 @@ func ruleFanModeLocal(w *World, r *Report) {
 	}
 	n := 0
 	bad := ""
+	badGlobal := ""
 	goBlock := gos[0].Block()
 	for _, b := range fn.Blocks {
 		if len(b.Instrs) == 0 || !b.Dominates(goBlock) {
@@ -5423,6 +5425,83 @@ func ruleFanModeLocal(w *World, r *Report) {
 		if dependsOn(ifi.Cond, carried) {
 			bad = w.PosOf(ifi)
 		}
+		// ... nor on a process-wide setting: through the value tested, or through the branches that decide which value
+		// a phi in it takes (`serial := policy; if !SystemParameters.X { serial = true }`)
+		isGlobal := func(v ssa.Value) bool {
+			u, ok := v.(*ssa.UnOp)
+			if !ok || u.Op != token.MUL {
+				return false
+			}
+			cur := u.X
+			for {
+				switch t := cur.(type) {
+				case *ssa.FieldAddr:
+					cur = t.X
+					continue
+				case *ssa.Global:
+					return true
+				}
+				return false
+			}
+		}
+		// only the branch whose other side is the serial alternative: it runs an action's Do directly
+		isHeader := false
+		for _, l := range loops {
+			if l.Header == b {
+				isHeader = true
+			}
+		}
+		if isHeader {
+			continue
+		}
+		other := b.Succs[0]
+		if r0 {
+			other = b.Succs[1]
+		}
+		serialSide := false
+		eraDo := w.TryMethod("core", "ExecRuleAction", "Do")
+		seenB := map[*ssa.BasicBlock]bool{b: true, goBlock: true}
+		stackB := []*ssa.BasicBlock{other}
+		for len(stackB) > 0 {
+			ob := stackB[len(stackB)-1]
+			stackB = stackB[:len(stackB)-1]
+			if seenB[ob] {
+				continue
+			}
+			seenB[ob] = true
+			for _, x := range ob.Instrs {
+				if c, ok := x.(*ssa.Call); ok && eraDo != nil && c.Common().StaticCallee() == eraDo {
+					serialSide = true
+				}
+			}
+			stackB = append(stackB, ob.Succs...)
+		}
+		if !serialSide {
+			continue
+		}
+		global := dependsOn(ifi.Cond, isGlobal)
+		dependsOn(ifi.Cond, func(v ssa.Value) bool {
+			p, ok := v.(*ssa.Phi)
+			if !ok {
+				return false
+			}
+			for _, pred := range p.Block().Preds {
+				if len(pred.Instrs) > 0 && controlDependsOnClassic(fn, pred.Instrs[len(pred.Instrs)-1], isGlobal, nil) {
+					global = true
+				}
+			}
+			return false
+		})
+		if global {
+			badGlobal = w.PosOf(ifi)
+			if os.Getenv("RULINT_DEBUG_CD") != "" {
+				fmt.Fprintf(os.Stderr, "FAN-MODE global: block %d cond %s\n", b.Index, ifi.Cond.String())
+			}
+		}
+	}
+	if badGlobal != "" && bad == "" {
+		r.violation("FAN-MODE-LOCAL", key+" global", badGlobal, "whether a rule's actions run one after the other — and stop at the first failure — depends on a process-wide setting: with it, a failing action of a rule that did not ask for serial actions stops that rule's other actions")
+		return
 	}
 	switch {
 	case n == 0:
@@ -8786,6 +8865,193 @@ func ruleErrRedress(prop string) ruleFn {
 		}
 		if n == 0 {
 			r.exempt("ERR-REDRESS", "pkg=core", "", "no error classified by a type assertion found: not decided")
+		}
+	}
+}
+
+// FLAG-NO-LEASE (C10): the `disabled` flag lives exactly as long as somebody wants it.
+func ruleFlagNoLease(w *World, r *Report) {
+	r.Rule("FLAG-NO-LEASE", "a rule is disabled until it is enabled or removed: the flag that Location.EnableRule(false) writes goes with the rule (its deleteWith: PROP-DW) or by EnableRule(true), and by nothing else.  The fact that carries the flag is therefore written without an `expires` / `ttl` of its own: a lease copied from the rule at the time of disabling outlives nothing the rule's removal would not take anyway, and ends too early as soon as the rule is written again with a later lease — the rule then fires although nobody enabled it", 1)
+	fn := w.Method("core", "Location", "EnableRule")
+	key := "fn=" + fname(fn)
+	var bad ssa.Instruction
+	allInstrs(fn, func(in ssa.Instruction) {
+		mu, ok := in.(*ssa.MapUpdate)
+		if !ok {
+			return
+		}
+		if k, isC := constKey(mu.Key); isC && (k == "expires" || k == "ttl") && bad == nil {
+			bad = in
+		}
+	})
+	if bad != nil {
+		r.violation("FLAG-NO-LEASE", key, w.PosOf(bad), "the `disabled` flag is written with a lease of its own")
+	} else {
+		r.ok("FLAG-NO-LEASE", key, w.Pos(fn.Pos()), "the flag is written without a lease")
+	}
+}
+
+// INDEX-LOAD (C08, C17, C06): what Add keeps up to date, Load builds.
+func ruleIndexLoad(prop string) ruleFn {
+	return func(w *World, r *Report) {
+		r.Rule("INDEX-LOAD", "a state is rebuilt from storage by Load, and after that it has to answer as the state that was written to did.  Every map field of a State implementation that the Add path writes (the facts, and every index derived from them: terms, rule patterns, a reverse index of deleteWith) is also written on the Load path — by Load going through the same internal add, or by filling it itself.  An index that only Add maintains is empty after a reload: with a cache TTL of `never` every request reloads, and removals no longer cascade", 2)
+		a := newLocAnchors(w)
+		n := 0
+		for nt := range a.stateImp {
+			owner := typeKey(nt)
+			st := structOf(nt)
+			if st == nil {
+				continue
+			}
+			reachWrites := func(root *ssa.Function) map[string]bool {
+				out := map[string]bool{}
+				seen := map[*ssa.Function]bool{}
+				var visit func(f *ssa.Function, d int)
+				visit = func(f *ssa.Function, d int) {
+					if f == nil || seen[f] || len(f.Blocks) == 0 || d > 6 {
+						return
+					}
+					seen[f] = true
+					allInstrs(f, func(in ssa.Instruction) {
+						if mu, ok := in.(*ssa.MapUpdate); ok {
+							if n2, fld, _, ok := loadedField(mu.Map); ok && typeKey(n2) == owner {
+								out[fld] = true
+							}
+						}
+						if c := callOf(in); c != nil {
+							if g := c.StaticCallee(); g != nil {
+								if o2, ok := stateOwnerOf(a, g); ok && o2 == owner {
+									visit(g, d+1)
+								}
+							}
+						}
+					})
+				}
+				visit(root, 0)
+				return out
+			}
+			add := w.TryMethod(typeRel(nt), nt.Obj().Name(), "Add")
+			load := w.TryMethod(typeRel(nt), nt.Obj().Name(), "Load")
+			if add == nil || load == nil {
+				continue
+			}
+			aw, lw := reachWrites(add), reachWrites(load)
+			var fields []string
+			for f := range aw {
+				fields = append(fields, f)
+			}
+			sort.Strings(fields)
+			for _, f := range fields {
+				if f == "cachedRules" {
+					continue // parsed on demand, by events
+				}
+				n++
+				key := "field=" + owner + "." + f
+				if lw[f] {
+					r.ok("INDEX-LOAD", key, w.Pos(load.Pos()), "written on the Add path and on the Load path")
+				} else {
+					r.violation("INDEX-LOAD", key, w.Pos(load.Pos()), "the Add path keeps this map up to date, the Load path never writes it: after a reload it is empty")
+				}
+			}
+		}
+		if n == 0 {
+			r.exempt("INDEX-LOAD", "iface=core.State", "", "no map field written on an Add path: shape not recognised, not decided")
+		}
+	}
+}
+
+// HOOK-ATOMIC (C12): in IndexedState the hook and the change it belongs to are one step.
+func ruleHookAtomic(w *World, r *Report) {
+	r.Rule("HOOK-ATOMIC", "IndexedState holds its write lock from before a state hook runs until the change the hook belongs to is in memory and in storage (LOCK-DEFER): unscheduling a rule's job and removing the rule, scheduling it and storing it, are one step for every other request.  Every call of the add or the removal hook in IndexedState's methods is therefore made with the state's lock acquired in that method, or in every method of the state that calls it.  With the hook in front of the lock (`it can be slow`), an AddRule of the same id that lands between a RemRule's hook and its removal leaves a cron job for a rule that is not stored", 3)
+	e := newLocksetEngine(w, nil)
+	lock := idxState + ".RWMutex"
+	nt := w.Named("core", "IndexedState")
+	lockedBefore := func(fn *ssa.Function, at ssa.Instruction) bool {
+		isAcq := func(in ssa.Instruction) bool { return e.acquires(in, lock) }
+		h, _ := reach(fn, nil, func(x ssa.Instruction) bool { return x == at }, isAcq, nil)
+		return h == nil
+	}
+	n := 0
+	for _, fn := range w.MethodsOf(nt) {
+		if isTestFile(w, fn) {
+			continue
+		}
+		allInstrs(fn, func(in ssa.Instruction) {
+			_, isAdd := hookCall(idxState, "addHook", in)
+			_, isRem := hookCall(idxState, "remHook", in)
+			if !isAdd && !isRem {
+				return
+			}
+			n++
+			key := "hook call in " + fname(fn)
+			if lockedBefore(fn, in) {
+				r.ok("HOOK-ATOMIC", key, w.PosOf(in), "the hook runs with the state's lock held")
+				return
+			}
+			// every caller inside the state holds it
+			callers := 0
+			okAll := true
+			for _, ed := range w.Callers(fn) {
+				cf := ed.Caller.Func
+				if cf == nil || isTestFile(w, cf) {
+					continue
+				}
+				if o, ok := stateOwnerOf(newLocAnchors(w), cf); !ok || o != idxState {
+					continue
+				}
+				callers++
+				if cf.Name() == "Load" {
+					continue // nobody else has the state yet
+				}
+				if !lockedBefore(cf, ed.Site) {
+					okAll = false
+				}
+			}
+			if callers > 0 && okAll {
+				r.ok("HOOK-ATOMIC", key, w.PosOf(in), "the hook runs with the state's lock held by every caller")
+			} else {
+				r.violation("HOOK-ATOMIC", key, w.PosOf(in), "the hook runs before the state's lock is taken: the hook's effect (a cron job scheduled or unscheduled) and the change of the state are two steps, and another request on the same id can land between them")
+			}
+		})
+	}
+	if n == 0 {
+		r.exempt("HOOK-ATOMIC", "type="+idxState, "", "no hook call found: not decided")
+	}
+}
+
+// TERM-NUMBERS (C02, C03): if numbers are index terms, every Go number is.
+func ruleTermNumbers(prop string) ruleFn {
+	return func(w *World, r *Report) {
+		r.Rule("TERM-NUMBERS", "the terms that IndexedState's extractor derives from a *pattern* are required terms: a fact that is not filed under each of them is never looked at.  Today only strings are terms.  If the extractor's type switch gets a case for a number type (so that {\"channel\":7} becomes selective), it has one for every Go number kind: a JSON pattern's 7 is a float64, the 7 of a fact that a script or a Go caller wrote is an int64 or an int — filed under no number term, such a fact is lost to every pattern that mentions the number, although the matcher would accept it (CAST-NUMBERS)", 1)
+		fn := w.TryFunc("core", "extractTermsAux")
+		if fn == nil {
+			r.exempt("TERM-NUMBERS", "fn=core.extractTermsAux", "", "not found: not decided")
+			return
+		}
+		key := "fn=" + fname(fn)
+		have := map[string]bool{}
+		for _, p := range fn.Params {
+			for t := range assertedTypes(fn, func(v ssa.Value) bool { return v == ssa.Value(p) }) {
+				have[t] = true
+			}
+		}
+		any := false
+		var missing []string
+		for t := range goNumericTypes {
+			if have[t] {
+				any = true
+			} else {
+				missing = append(missing, t)
+			}
+		}
+		sort.Strings(missing)
+		switch {
+		case !any:
+			r.ok("TERM-NUMBERS", key, w.Pos(fn.Pos()), "numbers are not index terms")
+		case len(missing) > 0:
+			r.violation("TERM-NUMBERS", key, w.Pos(fn.Pos()), "some numbers are index terms, but a fact's number of type "+strings.Join(missing, ", ")+" is filed under none: a pattern that mentions the number never finds that fact")
+		default:
+			r.ok("TERM-NUMBERS", key, w.Pos(fn.Pos()), "every Go number kind is a term")
 		}
 	}
 }
